@@ -48,6 +48,20 @@ pub fn corpus() -> Vec<(&'static str, IncCfg, Vec<Op>)> {
                         honest(&c, 3, asset, 50_000, None, None)]);
         v.push(("fully_claimed_flow_closed", c.clone(), ops));
     }
+    // the same address in two roles: the factory's fee collector (a treasury account) opens flows itself, paid out of the creation fees it
+    // received for three earlier flows - a flow in the fee denom and one in another native denom; every fee still reaches the collector,
+    // the contract holds exactly what its flows hold
+    let c = cfg_base(10, 0);
+    v.push(("fee_collector_opens_flows", c.clone(), vec![
+        honest(&c, 1, 1, 40_000, None, None),
+        honest(&c, 2, 0, 30_000, None, None),
+        honest(&c, 3, 11, 20_000, None, None),
+        Op::OpenFlow { sender: COLLECTOR_ID, funds: vec![(0, 2_500)], allow: vec![], start: None, end: None, asset: 0, amount: 2_500, label: None },
+        Op::NewEpoch, Op::Snapshot,
+        Op::CloseFlow { sender: COLLECTOR_ID, ident: Ident::Id(4) },
+        Op::CloseFlow { sender: 2, ident: Ident::Id(2) },
+        Op::CloseFlow { sender: 1, ident: Ident::Id(1) },
+    ]));
     // a single claim spanning more than EPOCH_CLAIM_CAP (100) epochs: the capped claim must still book what it pays, the rest is
     // claimed by the next call, and closing refunds exactly funded - claimed
     let c = cfg_base(10, 0);
@@ -59,6 +73,18 @@ pub fn corpus() -> Vec<(&'static str, IncCfg, Vec<Op>)> {
     for _ in 0..104 { long.push(Op::NewEpoch); long.push(Op::Snapshot); }
     long.extend(vec![Op::Claim { sender: 2 }, Op::Claim { sender: 2 }, Op::Claim { sender: 3 }, Op::CloseFlow { sender: 1, ident: Ident::Id(1) }]);
     v.push(("claim_beyond_epoch_cap", c.clone(), long));
+    // a flow expanded early (its funded amount then lives in the expansion record), a claim more than 100 epochs after that expansion,
+    // then the close: the refund is still latest funded amount - claimed, and a new flow can be opened afterwards
+    let c = cfg_base(10, 0);
+    let mut late: Vec<Op> = vec![
+        honest(&c, 1, 1, 9_000, None, Some(140)),
+        Op::OpenPosition { sender: 2, funds: vec![], allow: vec![(10, 5_000)], amount: 5_000, dur: 86_400, receiver: None },
+        Op::NewEpoch, Op::Snapshot,
+        Op::ExpandFlow { sender: 1, funds: vec![(1, 20_000)], allow: vec![], ident: Ident::Id(1), end: None, asset: 1, amount: 20_000 },
+    ];
+    for _ in 0..104 { late.push(Op::NewEpoch); late.push(Op::Snapshot); }
+    late.extend(vec![Op::Claim { sender: 2 }, Op::CloseFlow { sender: 1, ident: Ident::Id(1) }, honest(&c, 3, 1, 5_000, None, None), Op::NewEpoch, Op::Snapshot, Op::Claim { sender: 2 }]);
+    v.push(("late_claim_then_close_of_an_expanded_flow", c.clone(), late));
     // a flow whose start epoch lies in the past, one staker who claimed before it existed and one who never claimed: whatever
     // the late claim does, the flow never pays more than it was funded with and the other flow's funds stay untouched
     let c = cfg_base(10, 0);
